@@ -12,18 +12,22 @@ theorem mem_of_mem_erase' {m w : Msg} {l : List Msg} (hw : w ∈ l.erase m) : w 
   List.mem_of_mem_erase hw
 
 theorem inv_idle (c : Cfg) (δ : Nat) (s : Sys D) (now : Nat) (I : Inv c δ s) :
-    Inv c δ ({ s with now := now } : Sys D) := ⟨I.pendMem, I.clean, I.soupClean, I.evid⟩
+    Inv c δ ({ s with now := now } : Sys D) := ⟨I.whole, I.pendMem, I.clean, I.soupClean, I.evid⟩
+
+theorem inv_net (c : Cfg) (δ : Nat) (s : Sys D) (now : Nat) (cuts : List (List (Nat × Nat)))
+    (I : Inv c δ s) (h : ({ s with now := now, cuts := cuts } : Sys D).whole = true) :
+    Inv c δ ({ s with now := now, cuts := cuts } : Sys D) := ⟨h, I.pendMem, I.clean, I.soupClean, I.evid⟩
 
 theorem inv_crash (c : Cfg) (δ : Nat) (s : Sys D) (now x : Nat) (I : Inv c δ s) :
     Inv c δ ({ s with now := now, crashed := lset false s.crashed x true } : Sys D) :=
-  ⟨I.pendMem, fun a y hy => I.clean a y (live_crash hy),
+  ⟨I.whole, I.pendMem, fun a y hy => I.clean a y (live_crash hy),
    fun m hm y hy => I.soupClean m hm y (live_crash hy),
    fun a y t ha hy hp => I.evid a y t (live_crash ha) (live_crash hy) hp⟩
 
 theorem inv_drop (c : Cfg) (δ : Nat) (s : Sys D) (now : Nat) (m : Msg) (I : Inv c δ s)
     (hc : s.isCrashed m.dst = true) :
     Inv c δ ({ s with now := now, soup := s.soup.erase m } : Sys D) := by
-  refine ⟨I.pendMem, I.clean, fun w hw => I.soupClean w (mem_of_mem_erase' hw), ?_⟩
+  refine ⟨I.whole, I.pendMem, I.clean, fun w hw => I.soupClean w (mem_of_mem_erase' hw), ?_⟩
   intro a x t ha hx hp
   obtain ⟨w, hw, hcase⟩ := I.evid a x t ha hx hp
   by_cases hwm : w = m
@@ -47,7 +51,7 @@ theorem inv_commit_clean (c : Cfg) (δ : Nat) (s : Sys D) (b now : Nat) (r : Nod
     · subst hab; rw [node_commit_same]; exact (hclean x hx).1
     · rw [node_commit_other _ _ _ _ _ _ hab]; exact I.clean a x hx
   · intro m hm x hx
-    rw [soup_commit, List.mem_append] at hm
+    rw [soup_commit _ _ _ _ _ I.whole, List.mem_append] at hm
     rcases hm with hm | hm
     · exact I.soupClean m (hsoup m hm) x hx
     · obtain ⟨_, _, o, ho, _, _, hu⟩ := mem_stamp _ _ _ _ _ hm
@@ -58,7 +62,7 @@ theorem inv_tick (c : Cfg) (δ : Nat) (hδ : 2 * δ < c.half + c.susp) (s : Sys 
     Inv c δ (s.commit a now (onTick c a now shuf (s.node a)) s.soup) := by
   have hcl := inv_commit_clean c δ s a now (onTick c a now shuf (s.node a)) s.soup I
     (fun _ h => h) (fun x hx => clean_onTick c a now x shuf _ (I.clean a x hx))
-  refine ⟨?_, hcl.1, hcl.2, ?_⟩
+  refine ⟨I.whole, ?_, hcl.1, hcl.2, ?_⟩
   · intro a' x t hp
     by_cases hab : a' = a
     · subst hab
@@ -68,7 +72,7 @@ theorem inv_tick (c : Cfg) (δ : Nat) (hδ : 2 * δ < c.half + c.susp) (s : Sys 
       · exact hm
     · rw [node_commit_other _ _ _ _ _ _ hab] at hp; exact I.pendMem a' x t hp
   · intro a' x t ha hx hp
-    rw [soup_commit]
+    rw [soup_commit _ _ _ _ _ I.whole]
     by_cases hab : a' = a
     · subst hab
       rw [node_commit_same] at hp
@@ -96,12 +100,12 @@ theorem inv_ping (c : Cfg) (δ : Nat) (s : Sys D) (now : Nat) (m : Msg) (I : Inv
     by_cases hab : a = m.dst
     · subst hab; rw [node_commit_same, pendOf_onPing]
     · rw [node_commit_other _ _ _ _ _ _ hab]
-  refine ⟨?_, hcl.1, hcl.2, ?_⟩
+  refine ⟨I.whole, ?_, hcl.1, hcl.2, ?_⟩
   · intro a x t hp; rw [hpend] at hp; exact I.pendMem a x t hp
   · intro a x t ha hx hp
     rw [hpend] at hp
     obtain ⟨w, hw, hcase⟩ := I.evid a x t ha hx hp
-    rw [soup_commit]
+    rw [soup_commit _ _ _ _ _ I.whole]
     by_cases hwm : w = m
     · subst hwm
       rcases hcase with ⟨_, hs, hd, hlt⟩ | ⟨hk', _⟩
@@ -125,7 +129,7 @@ theorem inv_ack (c : Cfg) (δ : Nat) (s : Sys D) (now : Nat) (m : Msg) (I : Inv 
     (fun x hx => clean_onAck c m.dst now x m _ (I.clean m.dst x hx) (I.soupClean m hm x hx))
   have hout : (onAck c m.dst now m (s.node m.dst)).2 = [] := by
     unfold onAck; simp only []; split <;> rfl
-  refine ⟨?_, hcl.1, hcl.2, ?_⟩
+  refine ⟨I.whole, ?_, hcl.1, hcl.2, ?_⟩
   · intro a x t hp
     by_cases hab : a = m.dst
     · subst hab
@@ -135,7 +139,7 @@ theorem inv_ack (c : Cfg) (δ : Nat) (s : Sys D) (now : Nat) (m : Msg) (I : Inv 
       · exact I.pendMem _ x t hp
     · rw [node_commit_other _ _ _ _ _ _ hab] at hp; exact I.pendMem a x t hp
   · intro a x t ha hx hp
-    rw [soup_commit, hout]
+    rw [soup_commit _ _ _ _ _ I.whole, hout]
     simp only [stamp, List.append_nil]
     by_cases hab : a = m.dst
     · subst hab
@@ -165,7 +169,7 @@ theorem inv_ind (c : Cfg) (δ : Nat) (s : Sys D) (now a x0 : Nat) (shuf : List N
     Inv c δ (s.commit a now (onIndTimeout c a now x0 shuf (s.node a)) s.soup) := by
   have hcl := inv_commit_clean c δ s a now (onIndTimeout c a now x0 shuf (s.node a)) s.soup I
     (fun _ h => h) (fun x hx => clean_onIndTimeout c a now x x0 shuf _ (I.clean a x hx))
-  refine ⟨?_, hcl.1, hcl.2, ?_⟩
+  refine ⟨I.whole, ?_, hcl.1, hcl.2, ?_⟩
   · intro a' x t hp
     by_cases hab : a' = a
     · subst hab
@@ -175,7 +179,7 @@ theorem inv_ind (c : Cfg) (δ : Nat) (s : Sys D) (now a x0 : Nat) (shuf : List N
       · exact I.pendMem a' x t hp
     · rw [node_commit_other _ _ _ _ _ _ hab] at hp; exact I.pendMem a' x t hp
   · intro a' x t ha hx hp
-    rw [soup_commit]
+    rw [soup_commit _ _ _ _ _ I.whole]
     by_cases hab : a' = a
     · subst hab
       rw [node_commit_same, onIndTimeout_pend] at hp
@@ -208,7 +212,7 @@ theorem inv_susp (c : Cfg) (δ : Nat) (s : Sys D) (now a x0 : Nat) (t0 : Timer)
     (fun _ h => h)
     (fun x hx => ⟨clean_onSuspTimeout x x0 _ (I.clean a x hx) (fun h => hdead (h ▸ hx)),
                   by simp [OutsClean]⟩)
-  refine ⟨?_, hcl.1, hcl.2, ?_⟩
+  refine ⟨I.whole, ?_, hcl.1, hcl.2, ?_⟩
   · intro a' x t hp
     by_cases hab : a' = a
     · subst hab
@@ -219,7 +223,7 @@ theorem inv_susp (c : Cfg) (δ : Nat) (s : Sys D) (now a x0 : Nat) (t0 : Timer)
       · exact I.pendMem a' x t hp
     · rw [node_commit_other _ _ _ _ _ _ hab] at hp; exact I.pendMem a' x t hp
   · intro a' x t ha hx hp
-    rw [soup_commit]
+    rw [soup_commit _ _ _ _ _ I.whole]
     simp only [stamp, List.append_nil]
     by_cases hab : a' = a
     · subst hab
@@ -232,10 +236,12 @@ theorem inv_susp (c : Cfg) (δ : Nat) (s : Sys D) (now a x0 : Nat) (t0 : Timer)
       exact I.evid a' x t ha hx hp
 
 theorem inv_step (c : Cfg) (δ : Nat) (hδ : 2 * δ < c.half + c.susp) (s s' : Sys D) (now : Nat)
-    (I : Inv c δ s) (ht : TimelyAt δ s now) (h : Step c s now s') : Inv c δ s' := by
+    (I : Inv c δ s) (ht : TimelyAt δ s now) (h : Step c s now s') (hw : s'.whole = true) :
+    Inv c δ s' := by
   cases h with
   | idle => exact inv_idle c δ s now I
   | crash x => exact inv_crash c δ s now x I
+  | net cuts => exact inv_net c δ s now cuts I hw
   | drop m hm hc => exact inv_drop c δ s now m I hc
   | tick a shuf ha => exact inv_tick c δ hδ s now a shuf I
   | msg m hm hc =>
